@@ -3,7 +3,7 @@
 P="$1"; D="$2"
 T=$(mktemp -d /tmp/a816copy.XXXXXX)
 cp -r /tmp/clean_repo/a816 /tmp/clean_repo/script "$T"/
-( cd "$T" && patch -s -p1 < "$D" ) || { echo "patch failed"; rm -rf "$T"; exit 9; }
+D=$(readlink -f "$D"); ( cd "$T" && patch -s -p1 < "$D" ) || { echo "patch failed"; rm -rf "$T"; exit 9; }
 cd /verif
 for p in $(echo "$P" | tr ',' ' '); do ./check "$p" --repo "$T" | grep -v "^VIOLATION" | cut -c1-260; done
 rm -rf "$T"
